@@ -60,6 +60,16 @@ def gen_history(rng, n):
             extra = [rng.choice([["expiration"], ["expiration"], ["delegation"]])]
         evs.append(mk(rng, i, focus_author if rng.random() < 0.8 else rng.choice(AUTH), kind, d,
                       T0 + rng.choice([0, 1, 2, 3, 3]), extra))
+    if rng.random() < 0.2:
+        # several d tags, the first of them bare: the address is d='' (only the first d tag counts) — next to stored versions
+        # whose d is the *later* value and whose d is ''
+        x = rng.choice(["a", "ab", "x"])
+        a = focus_author
+        trio = [mk(rng, 90, a, 30000, x, T0 + 1), mk(rng, 91, a, 30000, "", T0), mk(rng, 92, a, 30000, "bare", T0 + 2, [["d", x]])]
+        if rng.random() < 0.5:
+            trio.append(mk(rng, 93, a, 30000, x, T0 + 3, [["d"]]))
+        pos = rng.randrange(len(evs) + 1)
+        evs[pos:pos] = trio
     if rng.random() < 0.3 and evs:
         evs.append(dict(rng.choice(evs)))  # resubmission
     return evs
